@@ -2,7 +2,7 @@
    (gen/MmrIndexGen.v) and the forest specification (spec/Forest.v).  The loops of model/MmrIndex.v are in
    MmrIndexLoops.v. *)
 From Coq Require Import ZArith Bool Lia List.
-From TF Require Import Word MmrIndexGen MmrIndex Forest MmrIndexBits.
+From TF Require Import Word MmrIndexGen MmrIndex Forest MmrIndexBits MmrIndexRef.
 Import ListNotations.
 Open Scope Z_scope.
 Ltac Zify.zify_post_hook ::= Z.div_mod_to_equations.
@@ -83,23 +83,48 @@ Proof. intros. unfold wsub. apply wrap_small. lia. Qed.
 Lemma left_child_val x h : 0 <= h < 64 -> 2 ^ h <= x < 2 ^ 64 ->
   left_child_ok x h = true /\ left_child x h = x - 2 ^ h.
 Proof.
-  intros Hh Hx. unfold left_child_ok, left_child. rewrite wshl64_1, shift_ok_64 by lia.
-  pose proof (pow2_pos h ltac:(lia)).
+  intros Hh Hx. pose proof (pow2_pos h ltac:(lia)).
+  to_ref (left_child_ref x h ltac:(u_range) ltac:(u_range)).
+  unfold Ref.left_child_ok, Ref.left_child. rewrite wshl64_1, shift_ok_64 by lia.
   rewrite wsub64_small by lia. unfold sub_ok. split; [lia|reflexivity].
+Qed.
+
+Lemma left_child_ok_small x h : 0 <= h < 64 -> 0 <= x < 2 ^ h -> left_child_ok x h = false.
+Proof.
+  intros Hh Hx. pose proof (pow2_lt h 64 ltac:(lia)).
+  to_ref (left_child_ref x h ltac:(u_range) ltac:(u_range)).
+  unfold Ref.left_child_ok. rewrite wshl64_1, shift_ok_64 by lia. unfold sub_ok. cbn [andb]. apply Z.leb_gt. lia.
+Qed.
+
+(* every regenerated function returns a wrapped word *)
+Lemma left_child_range x h : u64 x -> u32 h -> 0 <= left_child x h < 2 ^ 64.
+Proof. intros Hx Hh. to_ref (left_child_ref x h Hx Hh). unfold Ref.left_child, wsub. apply wrap_range. lia. Qed.
+
+Lemma leaf_index_to_node_index_range i : u64 i -> 0 <= leaf_index_to_node_index i < 2 ^ 64.
+Proof.
+  intros Hi. to_ref (leaf_index_to_node_index_ref i Hi). unfold Ref.leaf_index_to_node_index, wadd. cbv zeta.
+  apply wrap_range. lia.
+Qed.
+
+Lemma num_leafs_to_num_nodes_range n : u64 n -> 0 <= num_leafs_to_num_nodes n < 2 ^ 64.
+Proof.
+  intros Hn. to_ref (num_leafs_to_num_nodes_ref n Hn). unfold Ref.num_leafs_to_num_nodes, wsub. cbv zeta.
+  apply wrap_range. lia.
 Qed.
 
 Lemma right_child_val x : 1 <= x < 2 ^ 64 -> right_child_ok x = true /\ right_child x = x - 1.
 Proof.
-  intros H. unfold right_child_ok, right_child, sub_ok. rewrite wsub64_small by lia. split; [lia|reflexivity].
+  intros H. to_ref (right_child_ref x ltac:(u_range)). unfold Ref.right_child_ok, Ref.right_child, sub_ok. rewrite wsub64_small by lia. split; [lia|reflexivity].
 Qed.
 
 Lemma left_sibling_val x h : 0 <= h < 63 -> 2 ^ (h + 1) <= x < 2 ^ 64 ->
   left_sibling_ok x h = true /\ left_sibling x h = x - 2 ^ (h + 1) + 1.
 Proof.
-  intros Hh Hx. unfold left_sibling_ok, left_sibling.
+  intros Hh Hx. pose proof (pow2_pos (h + 1) ltac:(lia)).
+  to_ref (left_sibling_ref x h ltac:(u_range) ltac:(u_range)).
+  unfold Ref.left_sibling_ok, Ref.left_sibling.
   assert (E : wadd 32 h 1 = h + 1) by (apply wadd32_small; pow_lits; lia).
   rewrite E. rewrite wshl64_1, shift_ok_64 by lia.
-  pose proof (pow2_pos (h + 1) ltac:(lia)).
   rewrite wsub64_small by lia. rewrite wadd64_small by lia.
   unfold add_ok, sub_ok. pow_lits. split; [lia|reflexivity].
 Qed.
@@ -107,10 +132,11 @@ Qed.
 Lemma right_sibling_val x h : 0 <= h < 63 -> 0 <= x -> x + 2 ^ (h + 1) < 2 ^ 64 ->
   right_sibling_ok x h = true /\ right_sibling x h = x + 2 ^ (h + 1) - 1.
 Proof.
-  intros Hh Hx Hs. unfold right_sibling_ok, right_sibling.
+  intros Hh Hx Hs. pose proof (pow2_pos (h + 1) ltac:(lia)).
+  to_ref (right_sibling_ref x h ltac:(u_range) ltac:(u_range)).
+  unfold Ref.right_sibling_ok, Ref.right_sibling.
   assert (E : wadd 32 h 1 = h + 1) by (apply wadd32_small; pow_lits; lia).
   rewrite E. rewrite wshl64_1, shift_ok_64 by lia.
-  pose proof (pow2_pos (h + 1) ltac:(lia)).
   rewrite wadd64_small by lia. rewrite wsub64_small by lia.
   unfold add_ok, sub_ok. pow_lits. split; [lia|reflexivity].
 Qed.
@@ -125,7 +151,8 @@ Ltac word_arith :=
 Lemma leaf_index_to_node_index_val i : 0 <= i < 2 ^ 63 ->
   leaf_index_to_node_index_ok i = true /\ leaf_index_to_node_index i = 2 * i - count_ones i + 1.
 Proof.
-  intros Hi. unfold leaf_index_to_node_index_ok, leaf_index_to_node_index.
+  intros Hi. to_ref (leaf_index_to_node_index_ref i ltac:(u_range)).
+  unfold Ref.leaf_index_to_node_index_ok, Ref.leaf_index_to_node_index.
   pose proof (count_ones_nonneg i). pose proof (count_ones_le_self i ltac:(lia)).
   generalize dependent (count_ones i). intros c Hc0 Hc. pow_lits. split; word_arith.
 Qed.
@@ -133,7 +160,8 @@ Qed.
 Lemma num_leafs_to_num_nodes_val n : 0 <= n < 2 ^ 63 ->
   num_leafs_to_num_nodes_ok n = true /\ num_leafs_to_num_nodes n = 2 * n - count_ones n.
 Proof.
-  intros Hi. unfold num_leafs_to_num_nodes_ok, num_leafs_to_num_nodes.
+  intros Hi. to_ref (num_leafs_to_num_nodes_ref n ltac:(u_range)).
+  unfold Ref.num_leafs_to_num_nodes_ok, Ref.num_leafs_to_num_nodes.
   pose proof (count_ones_nonneg n). pose proof (count_ones_le_self n ltac:(lia)).
   generalize dependent (count_ones n). intros c Hc0 Hc. pow_lits. split; word_arith.
 Qed.
@@ -143,7 +171,8 @@ Lemma leftmost_ancestor_val x : 1 <= x < 2 ^ 64 ->
   leftmost_ancestor_ok x = true /\
   exists H : nat, (H <= 63)%nat /\ leftmost_ancestor x = (tsize H, Z.of_nat H) /\ tleafs H <= x <= tsize H.
 Proof.
-  intros Hx. unfold leftmost_ancestor_ok, leftmost_ancestor, leading_zeros, bitlen.
+  intros Hx. to_ref (leftmost_ancestor_ref x ltac:(u_range)).
+  unfold Ref.leftmost_ancestor_ok, Ref.leftmost_ancestor, leading_zeros, bitlen.
   destruct (Z.eqb_spec x 0) as [->|_]; [lia|].
   pose proof (Z.log2_spec x ltac:(lia)) as Hl. pose proof (Z.log2_nonneg x) as Hn.
   assert (Hl63 : Z.log2 x < 64) by (apply Z.log2_lt_pow2; lia).
@@ -388,7 +417,8 @@ Proof.
   assert (Hc : 0 <= i / 2 ^ (Z.of_nat t + 1)) by (apply Z.div_pos; lia).
   pose proof (land_succ_not 64 t _ i ltac:(lia) Hc Ei ltac:(change (2 ^ Z.of_nat 64) with (2 ^ 64); lia)) as L.
   change (2 ^ Z.of_nat 64) with (2 ^ 64) in L.
-  unfold right_lineage_length_from_leaf_index_ok, right_lineage_length_from_leaf_index. cbv zeta.
+  to_ref (right_lineage_length_from_leaf_index_ref i ltac:(u_range)).
+  unfold Ref.right_lineage_length_from_leaf_index_ok, Ref.right_lineage_length_from_leaf_index. cbv zeta.
   rewrite wadd64_small by lia. unfold wnot. rewrite L.
   unfold leading_zeros, bitlen. destruct (Z.eqb_spec (2 ^ Z.of_nat t) 0); [lia|].
   rewrite Z.log2_pow2 by lia.
